@@ -2,13 +2,66 @@
 C11 bounded tier: on every run that completes, the reported cuts equal (output fragments - input contigs), the
 reported breaks / joins equal an independent recount of contig-end adjacencies (unordered pairs of the two facing
 contig ends; input adjacencies missing from every output assembly / output adjacencies that were not in the input),
-and the haplotig-removal count computed as write_info_yaml() does equals the number of haplotig scaffolds written.
+and the haplotig-removal count which write_info_yaml() puts into *.info.yaml (the only place where it is reported)
+equals the number of haplotig scaffolds written.
+
+Besides the PretextView-model families of pipeline_gen (texel-aligned pieces of >= 2 texels) there are the *sliver*
+families defined here: a tagged piece (Haplotig / Contaminant / FalseDuplicate / untagged) shorter than, equal to or
+just above the texel error length 1 + floor(bp per texel), lying at / before / across every row boundary of a small
+scaffold, so that its overlap result is trimmed away, awarded to the neighbouring piece, cut, or kept; with
+tagged neighbours (several tagged pieces of one haplotig) and in three groupings.  These are the inputs on which
+"pieces labelled Haplotig" and "haplotig scaffolds written" differ.
 """
 
+import contextlib
+import itertools
+import math
+import pathlib
 import random
+import shutil
+import tempfile
 
 from . import pipeline_gen as pg
 from .common import Collector
+
+
+_SCRATCH = []  # temporary directory of the run() / replay() in progress (removed when it ends)
+
+
+@contextlib.contextmanager
+def scratch_dir():
+    d = tempfile.mkdtemp(prefix="c11-")
+    _SCRATCH.append(d)
+    try:
+        yield d
+    finally:
+        _SCRATCH.remove(d)
+        shutil.rmtree(d, ignore_errors=True)
+
+
+def reported_haplotig_removals(run):
+    """
+    manual_haplotig_removals of the *.info.yaml which write_info_yaml(), called as cli() calls it, writes for this run
+    (None if the key is missing).  The file is written into the scratch directory and deleted as soon as it is read.
+    """
+    if not _SCRATCH:
+        return pg.info_yaml(run).get("manual_haplotig_removals")
+    import yaml
+
+    from tola.assembly.scripts.pretext_to_asm import write_info_yaml
+
+    d = pathlib.Path(_SCRATCH[-1])
+    with pg.quiet():
+        write_info_yaml(d / "x.1.agp", run.build.assembly_stats, run.raw_out, True)
+    (yf,) = list(d.glob("*.info.yaml"))
+    text = yf.read_text()
+    yf.unlink()
+    info = yaml.load(text, Loader=getattr(yaml, "CSafeLoader", yaml.SafeLoader))
+    return info.get("manual_haplotig_removals") if isinstance(info, dict) else None
+
+
+def has_special_tag(case):
+    return any(t in pg.SPECIAL_TAGS for sc in case["map"]["scaffolds"] for p in sc for t in p[4])
 
 
 def recount(inp, out):
@@ -43,15 +96,16 @@ def check(case, col):
         problems.append(f"breaks reported {run.breaks}, recount {breaks} (input adjacencies gone: {fmt(in_adj - out_adj)})")
     if run.joins != joins:
         problems.append(f"joins reported {run.joins}, recount {joins} (new output adjacencies: {fmt(out_adj - in_adj)})")
-    # haplotig removals
+    # haplotig removals: the number in *.info.yaml against the scaffolds of the Haplotig assembly that is written
     hap_scaffolds = run.out.get("Haplotig", {"scaffolds": []})["scaffolds"]
     if case.get("yaml"):
-        reported = pg.info_yaml(run).get("manual_haplotig_removals")
-    else:
-        raw = run.raw_out.get("Haplotig")
-        reported = len(raw.scaffolds) if raw else 0
-    if reported != len(hap_scaffolds):
-        problems.append(f"haplotig removals reported {reported}, haplotig scaffolds written {len(hap_scaffolds)}")
+        reported = reported_haplotig_removals(run)
+        if reported != len(hap_scaffolds):
+            tagged_h = sum(1 for sc in case["map"]["scaffolds"] for p in sc if "Haplotig" in p[4])
+            problems.append(
+                f"haplotig removals reported in info.yaml: {reported!r}, haplotig scaffolds written: {len(hap_scaffolds)} "
+                f"({[sc['name'] for sc in hap_scaffolds]}; the map has {tagged_h} Haplotig-tagged pieces)"
+            )
     if case.get("model"):
         # every Haplotig-tagged piece of a PretextView-model map becomes one haplotig scaffold (H_n) unless nothing of it is left
         margin = pg.margin_of(case["map"]["bpt"])
@@ -62,47 +116,229 @@ def check(case, col):
             problems.append(f"{len(hap_scaffolds)} haplotig scaffolds written for {len(tagged)} Haplotig pieces ({len(solid)} with an interior)")
     if problems:
         col.fail("; ".join(problems), case)
-    return (cuts, breaks, joins)
+    return (cuts, breaks, joins, len(hap_scaffolds))
 
 
 def replay(inp):
     col = Collector("replay")
-    check(inp, col)
+    with scratch_dir():
+        check(inp, col)
     return col.failures[0]["message"] if col.failures else None
 
 
-def add_haplotigs(case, rng):
+# --------------------------------------------------------------------------------------------------
+# sliver families: tagged pieces around the texel error length at every row boundary
+# --------------------------------------------------------------------------------------------------
+
+TAG_OF = {"": [], "H": ["Haplotig"], "C": ["Contaminant"], "F": ["FalseDuplicate"]}
+# (left flank, sliver, right flank)
+TAG_PATTERNS_QUICK = ["-H-", "HH-", "-HH", "H-H", "-C-", "-F-", "CH-", "H--"]
+TAG_PATTERNS_THOROUGH = TAG_PATTERNS_QUICK + ["HHH", "--H", "HC-", "-CH", "HF-", "-FH", "FH-", "-HC", "CHC", "---"]
+GROUPINGS = ("apart", "flanks", "inplace")
+
+
+def error_length(bpt):
+    """the texel error length of the remapping: 1 + floor(bp per texel)"""
+    return 1 + math.floor(bpt)
+
+
+def sliver_lengths(bpt):
+    """piece lengths around the error length e: 1 bp, half a texel, a texel (e - 1), e, e + 1, two texels + 1"""
+    t = math.floor(bpt)
+    return sorted({1, max(1, t // 2), t, t + 1, t + 2, 2 * t + 1})
+
+
+def sliver_spans(rows, ln):
+    """every span of `ln` bases that ends just before, lies across, or starts at a row boundary (scaffold ends included)"""
+    total = pg.rows_len(rows)
+    spans = set()
+    pos = 1
+    for r in [*rows, None]:
+        for s in (pos - ln, pos - ln // 2, pos):
+            if s >= 1 and s + ln - 1 <= total:
+                spans.add((s, s + ln - 1))
+        if r is not None:
+            pos += pg.row_len(r)
+    return sorted(spans)
+
+
+def sliver_geometries(bpt, tier):
+    """
+    small input scaffolds for a texel size, as (scaffold, core): 1-3 contigs which are long (4 or 6 texels), shorter
+    than a texel, or (thorough) 1 bp; no gap / a gap of one texel / a gap of more than two texels (thorough: also 1 bp
+    and 200 bp); every strand tuple (quick: four patterns for three contigs).  core = within the quick scope's lengths
+    and gaps.
+    """
+    t = math.ceil(bpt)
+    long1, long2, short = 6 * t, 4 * t, max(2, math.floor(0.7 * bpt))
+    quick = tier == "quick"
+    tuples = [(long1, long2), (short, long1), (long1, short), (long2, short, long2)]
+    gaps = [None, (t, "scaffold"), (2 * t + 5, "scaffold")]
+    n_core = (len(tuples), len(gaps))
+    if not quick:
+        tuples += [(1, long1), (long1, 1), (short, short, long1), (long2, 1, long2), (long1,)]
+        gaps += [(1, "contig"), (200, "scaffold")]
+    i = 0
+    for ti, lt in enumerate(tuples):
+        k = len(lt)
+        for gi, g in enumerate(gaps if k > 1 else (None,)):
+            for sp in itertools.product((1, -1), repeat=k) if (k < 3 or not quick) else pg.strand_patterns(k):
+                i += 1
+                naming = "own" if quick else ("own", "fasta", "offset")[i % 3]
+                yield pg.make_scaffold("scaffold_1", lt, sp, [g] * (k - 1), naming, tag="1"), (ti < n_core[0] and gi < n_core[1])
+
+
+def sliver_case(sc, bpt, span, pattern, grouping, strand, extra, i):
+    """
+    the map in which scaffold `sc` is split into left flank / sliver `span` / right flank (a flank may be empty),
+    tagged by `pattern`, grouped as
+      apart    every piece its own (unpainted) Pretext scaffold
+      flanks   the flanks together in one painted Pretext scaffold, the sliver on its own
+      inplace  all three in input order in one painted Pretext scaffold
+    the sliver on `strand`; `extra`: a second one-contig input scaffold, placed whole as a Haplotig ('H'), untagged
+    ('-') or not in the input (None)
+    """
+    total = pg.rows_len(sc["rows"])
+    s, e = span
+    name = sc["name"]
+    left = [name, 1, s - 1, 1, list(TAG_OF[pattern[0].strip("-")])] if s > 1 else None
+    sliver = [name, s, e, strand, list(TAG_OF[pattern[1].strip("-")])]
+    right = [name, e + 1, total, 1, list(TAG_OF[pattern[2].strip("-")])] if e < total else None
+    if grouping == "apart":
+        scs = [[p] for p in (left, sliver, right) if p]
+    else:
+        group = [p for p in ((left, right) if grouping == "flanks" else (left, sliver, right)) if p]
+        for p in group:
+            p[4].insert(0, "Painted")
+        scs = ([group] if group else []) + ([[sliver]] if grouping == "flanks" else [])
+    inp = [sc]
+    if extra is not None:
+        sc2 = pg.make_scaffold("scaffold_2", [4 * math.ceil(bpt) + 3], [-1 if i % 2 else 1], None, "own", tag="2")
+        inp = [sc, sc2]
+        scs.insert(i % (len(scs) + 1), [["scaffold_2", 1, pg.rows_len(sc2["rows"]), 1 if i % 4 < 2 else -1, list(TAG_OF[extra.strip("-")])]])
+    return {"input": inp, "map": {"bpt": bpt, "scaffolds": scs}, "prefix": "SUPER_", "via": pg.pick_via(inp, i)}
+
+
+def sliver_cases(tier):
+    """
+    The enumerated sliver scope: every geometry x sliver length x position (sliver_spans).  Thorough, 10 bp/texel, core
+    geometries: ALL listed tag patterns per span (grouping, sliver strand and the extra scaffold rotate).  Elsewhere
+    `per` combinations of pattern x grouping x strand per span (quick 2; thorough 5 at 10 bp/texel, 2 at the other
+    texel sizes), rotating through the full product so that every combination is met many times over the scope.
+    """
+    quick = tier == "quick"
+    i = 0
+    patterns = TAG_PATTERNS_QUICK if quick else TAG_PATTERNS_THOROUGH
+    combos = list(itertools.product(patterns, GROUPINGS, (1, -1)))
+    for bpt in (10.0,) if quick else (10.0, 2.5, 33.3):
+        per = 2 if quick or bpt != 10.0 else 5
+        for sc, core in sliver_geometries(bpt, tier):
+            full = core and not quick and bpt == 10.0
+            for ln in sliver_lengths(bpt):
+                for span in sliver_spans(sc["rows"], ln):
+                    if full:
+                        chosen = [(pat, GROUPINGS[(i + j) % 3], 1 if (i + j) % 2 else -1) for j, pat in enumerate(patterns)]
+                    else:
+                        # 7 is coprime to the number of combinations: the rotation visits all of them
+                        chosen = [combos[(7 * (i + j)) % len(combos)] for j in range(per)]
+                    for pat, grouping, strand in chosen:
+                        i += 1
+                        extra = (None, "H", "-", None)[i % 4]
+                        yield sliver_case(sc, bpt, span, pat, grouping, strand, extra, i)
+
+
+def random_sliver_cases(tier, rng):
+    """
+    seeded: the multi-scaffold and sub-texel-run inputs of pipeline_gen, every scaffold split at 0-3 points lying within
+    one error length of a row boundary (so that pieces of any length down to 1 bp arise), each piece tagged Haplotig
+    (p 0.25), Contaminant or FalseDuplicate (p 0.06 each), random order / orientation / grouping / painting
+    """
+    n = 150 if tier == "quick" else 10000
+    inputs = itertools.chain.from_iterable(zip(pg.multi_scaffold_inputs(rng, n, clean_ends=True), pg.subtexel_run_inputs(rng, n)))
+    for i, inp in enumerate(inputs):
+        bpt = rng.choice((10.0, 10.0, 2.5, 33.3))
+        e = error_length(bpt)
+        pieces, tags = [], []
+        for sc in inp:
+            total = pg.rows_len(sc["rows"])
+            bounds = []
+            pos = 0
+            for r in sc["rows"]:
+                pos += pg.row_len(r)
+                bounds.append(pos)
+            cuts = set()
+            for _ in range(rng.choice((0, 1, 2, 2, 3))):
+                c = rng.choice(bounds) + rng.randint(-e - 1, e + 1)
+                if 1 <= c < total:
+                    cuts.add(c)
+            edges = [0, *sorted(cuts), total]
+            for a, b in itertools.pairwise(edges):
+                pieces.append([sc["name"], a + 1, b])
+                roll = rng.random()
+                tags.append(["Haplotig"] if roll < 0.25 else ["Contaminant"] if roll < 0.31 else ["FalseDuplicate"] if roll < 0.37 else [])
+        arr = pg.random_arrangement(len(pieces), rng)
+        painted = [rng.random() < 0.5 for _ in arr[2]]
+        mp = {"bpt": bpt, "scaffolds": pg.arrange(pieces, arr, painted, tags)}
+        yield {"input": inp, "map": mp, "prefix": "SUPER_", "via": pg.pick_via(inp, i)}
+
+
+def add_tags(case, rng):
+    """Haplotig on three pieces in ten, Contaminant / FalseDuplicate on six in a hundred each (one rng call per piece)"""
     scs = [[[*p[:4], list(p[4])] for p in sc] for sc in case["map"]["scaffolds"]]
     for sc in scs:
         for p in sc:
-            if rng.random() < 0.3:
+            roll = rng.random()
+            if roll < 0.3:
                 p[4].append("Haplotig")
+            elif roll < 0.36:
+                p[4].append("Contaminant")
+            elif roll < 0.42:
+                p[4].append("FalseDuplicate")
     return {**case, "map": {"bpt": case["map"]["bpt"], "scaffolds": scs}}
 
 
 def run(tier, seed, **opts):
+    with scratch_dir():
+        return _run(tier, seed, **opts)
+
+
+def _run(tier, seed, **opts):
     rng = random.Random(seed)
     col = Collector(
         "PretextView-model edit scripts from pipeline_gen (exhaustive tiny scope with both strands per contig; single "
         "scaffolds of <= 3 contigs over every length tuple incl. 1-bp and abutting contigs and same-named contigs on "
         "opposite strands; sub-texel runs; 2-3 scaffold inputs; whole-scaffold reversals, cuts, regrouping), the same "
-        "with Haplotig tags, and seeded perturbed maps that complete; oracle: independent recount over unordered pairs "
-        "of facing contig ends; non-trivial = distinct completed case with cuts + breaks + joins > 0 or a reversed piece"
+        "with Haplotig / Contaminant / FalseDuplicate tags, seeded perturbed maps that complete, and the sliver families "
+        "(enumerated: a tagged piece of 1 bp .. two texels at / before / across every row boundary of a 1-3 contig "
+        "scaffold, tagged or untagged flanks, three groupings, both strands; seeded: 2-3 scaffold and sub-texel-run inputs "
+        "split within one error length of row boundaries, random tags; and perturbations of these); oracle: independent "
+        "recount over unordered pairs of facing contig ends, and the haplotig removals read from the info.yaml written for "
+        "the run (every case whose map carries a Haplotig / Contaminant / FalseDuplicate tag, and one in 41 of the others) "
+        "against the scaffolds of the Haplotig assembly; non-trivial = distinct completed case with cuts + breaks + joins "
+        "> 0, a reversed piece, or a Haplotig-tagged piece"
     )
-    quick = tier == "quick"
-    stats = {"errors": 0}
+    stats = {"errors": 0, "yaml read": 0, "haplotig pieces != haplotig scaffolds": 0}
     n = 0
 
-    def one(case, fam):
+    def one(case, fam, model=True):
         nonlocal n
         n += 1
-        case = {**case, "yaml": n % 41 == 0, "model": fam != "perturbed"}
+        case = {**case, "yaml": n % 41 == 0 or has_special_tag(case), "model": model}
         r = check(case, col)
         if r is None:
             stats["errors"] += 1
         stats[fam] = stats.get(fam, 0) + 1
-        rev = any(p[3] == -1 for sc in case["map"]["scaffolds"] for p in sc)
-        col.case(pg.case_key(case), nontrivial=r is not None and (sum(r) > 0 or rev), sample={"family": fam, **case} if (r and sum(r) > 2 and n % 797 == 0) else None)
+        stats["yaml read"] += bool(case["yaml"] and r is not None)
+        pieces = [p for sc in case["map"]["scaffolds"] for p in sc]
+        rev = any(p[3] == -1 for p in pieces)
+        hap = sum(1 for p in pieces if "Haplotig" in p[4])
+        if r is not None and hap != r[3]:
+            stats["haplotig pieces != haplotig scaffolds"] += 1
+        col.case(
+            pg.case_key(case),
+            nontrivial=r is not None and (sum(r[:3]) > 0 or rev or hap > 0),
+            sample={"family": fam, **case} if (r and sum(r[:3]) > 2 and n % 797 == 0) else None,
+        )
 
     scopes = pg.tiny_scopes(tier)
     tiny_n = 0
@@ -118,15 +354,37 @@ def run(tier, seed, **opts):
         one(case, fam)
         roll = rng.random()
         if roll < 0.25:
-            one(add_haplotigs(case, rng), fam + "+haplotig")
+            one(add_tags(case, rng), fam + "+tagged")
         elif roll > 0.7:
             for pc, _ in pg.perturbations(case, rng, 1):
-                one(pc, "perturbed")
+                one(pc, "perturbed", model=False)
+    # the sliver families draw from their own generator, so that the stream above does not depend on them
+    rng2 = random.Random(seed * 1000003 + 11)
+    sliver_n = 0
+    for case in sliver_cases(tier):
+        if col.full:
+            break
+        sliver_n += 1
+        one(case, "sliver")
+        if sliver_n % 6 == 0:
+            for pc, _ in pg.perturbations(case, rng2, 1):
+                one(pc, "sliver perturbed", model=False)
+    for case in random_sliver_cases(tier, rng2):
+        if col.full:
+            break
+        one(case, "sliver seeded")
+        if rng2.random() < 0.15:
+            for pc, _ in pg.perturbations(case, rng2, 1):
+                one(pc, "sliver perturbed", model=False)
     return col.result(
         bounds=(
             "input: 1-3 scaffolds x 1-6 contigs, contig lengths from {1,2,7,12,40,150,400,1000}, gaps none/1/10/20/25/200, both "
             "strands (strand 0 excluded: the statement speaks of forward and reverse contigs), names fasta/own/offset; texel "
             f"sizes {{1,2.5,10,33.3}}; <= 3 cuts per scaffold; tiny scopes ({tiny_n} cases: {pg.describe_scopes(scopes)}) enumerated fully, the rest seeded; "
+            f"sliver scope ({sliver_n} cases, enumerated): texel sizes {[10.0] if tier == 'quick' else [10.0, 2.5, 33.3]}, contigs of 6 / 4 texels, 0.7 texel"
+            f"{'' if tier == 'quick' else ', 1 bp'}, gaps none / 1 texel / 2 texels + 5{'' if tier == 'quick' else ' / 1 / 200'}, sliver lengths "
+            "{1, texel/2, texel, e, e+1, 2 texels + 1} with e = 1 + floor(texel size), tag patterns (left flank, sliver, right flank) "
+            f"{TAG_PATTERNS_QUICK if tier == 'quick' else TAG_PATTERNS_THOROUGH}; "
             f"runs ending in an error (not judged): {stats['errors']}; per family: "
             + ", ".join(f"{k}={v}" for k, v in sorted(stats.items()) if k != "errors")
         ),
